@@ -803,6 +803,16 @@ impl Grammar {
             for rule in &sym.rules {
                 let mut rhs = Vec::with_capacity(rule.rhs.len());
                 for s in &rule.rhs {
+                    if !(s.1.is_null() || s.1.is_self_ref()) {
+                        // an alias (`sym: trg`) referenced with an explicit parameter:
+                        // substitute the target but keep the parameter of the reference
+                        if let Some(trg) = definition[s.0.as_usize()] {
+                            if !to_eliminate.contains(&trg) {
+                                rhs.push((outp.copy_from(self, trg), s.1.clone()));
+                                continue;
+                            }
+                        }
+                    }
                     if let Some(repl) = repl.get(&s.0) {
                         assert!(s.1.is_null() || s.1.is_self_ref());
                         rhs.extend(
